@@ -19,6 +19,7 @@ structure TmplSt where
   tmpl : Option Template := none
   subsets : Array Subset := #[]
   invalid : Bool := false
+  dataFlag : Nat := 0                          -- `dts->data_flag` bits that reach Section 3 (observed, compressed)
 
 def parseBType : String → Option BType
   | "4" => some .numeric | "5" => some .ccitt | "6" => some .codetable | "7" => some .flagtable | _ => none
@@ -77,9 +78,9 @@ def stepTemplate (st : TmplSt) (toks : List String) : Option (TmplSt × String) 
     match ed.toNat?, ds.mapM (·.toNat?) with
     | some ed, some ds =>
       match createTemplate T defaultFuel ed ds with
-      | .ok t => some ({ st with tmpl := some t, subsets := #[], invalid := false }, s!"ok {t.gabarit.length} {if t.hasDelayed then 1 else 0}")
-      | .error .null => some ({ st with tmpl := none, subsets := #[] }, "fail")
-      | .error _ => some ({ st with tmpl := none, subsets := #[] }, "diverge")
+      | .ok t => some ({ st with tmpl := some t, subsets := #[], invalid := false, dataFlag := 0 }, s!"ok {t.gabarit.length} {if t.hasDelayed then 1 else 0}")
+      | .error .null => some ({ st with tmpl := none, subsets := #[], dataFlag := 0 }, "fail")
+      | .error _ => some ({ st with tmpl := none, subsets := #[], dataFlag := 0 }, "diverge")
     | _, _ => some (st, "bad-op")
   | ["tm.gabarit"] =>
     match st.tmpl with
